@@ -32,8 +32,24 @@ def big_value_cases(rng, n):
     return out
 
 
+def big_key_cases(rng, n):
+    """Implementation-only cases with one key of 40-200 KB (so that its hint entry is that long too): merged, read back with
+    hint files and again after the hint files were deleted."""
+    out = []
+    for i in range(n):
+        r = rng.fork()
+        cfg = {"mfs": r.choice([2 ** 31, 30000]), "cache": 256, "conc": 1, "frag": (0, 1), "dead": 0, "small": 10 ** 9}
+        bk = bytes([97 + r.below(26)]) * r.choice([40000, 65500, 65600, 100 * 1024, 200000])
+        small = [b"s%d" % j for j in range(r.rng(2, 30))]
+        ops = [("set", b"first", b"1"), ("set", bk, b"big-key-value")] + [("set", k, b"v" + k) for k in small] + [("set", b"first", b"2"), ("merge",)]
+        reads = [("get", bk), ("get", b"first")] + [("get", k) for k in small]
+        ops += reads + [("reopen",)] + reads + [("drophints",)] + reads
+        out.append(S.Case("bigkey%d" % i, cfg, ops))
+    return out
+
+
 def run(pid, tier, seed, profile, ncases, relevant=None, extra_oracle=None, corpus=None, maxlen=25,
-        rule="", assumptions=None, line_norm=None, big_values=0):
+        rule="", assumptions=None, line_norm=None, big_values=0, big_keys=0):
     rep = Report(pid, tier, seed)
     rng = Rng(seed)
     pr = coq_check_props(pid)
@@ -84,7 +100,7 @@ def run(pid, tier, seed, profile, ncases, relevant=None, extra_oracle=None, corp
                 break
     rep.obligation("correspondence store: model = implementation on every compared observable", ndis == 0)
     # large values: implementation against the map oracle only
-    bigs = big_value_cases(rng, big_values) if big_values else []
+    bigs = (big_value_cases(rng, big_values) if big_values else []) + (big_key_cases(rng, big_keys) if big_keys else [])
     if bigs:
         died_b = S.run_impl(bigs)
         for c in bigs:
@@ -92,9 +108,10 @@ def run(pid, tier, seed, profile, ncases, relevant=None, extra_oracle=None, corp
             if c.name in died_b and not bad:
                 bad.append((len(c.impl or []), "the store process died or hung"))
             if bad:
-                rep.failing.append({"what": bad[0][1] + " (value of %d bytes in the history)" % max(len(o[2]) for o in c.ops if o[0] == "set"),
-                                    "at_op": bad[0][0], "all": [b[1] for b in bad[:5]], "case": c.show(), "impl": (c.impl or [])[:30]})
-        rep.obligation("large values (1-40 MiB): implementation = map, across reopen and merge", not any("bytes in the history" in f["what"] for f in rep.failing))
+                rep.failing.append({"what": bad[0][1][:300] + " (value of %d bytes in the history)" % max(len(o[2]) for o in c.ops if o[0] == "set"),
+                                    "at_op": bad[0][0], "all": [b[1][:300] for b in bad[:5]], "case": {"name": c.name, "cfg": c.cfg, "ops": [S.show_op(o)[:120] for o in c.ops]},
+                                    "impl": [l[:120] for l in (c.impl or [])[:30]]})
+        rep.obligation("large values (1-40 MiB) / large keys (40-200 KB): implementation = map, across reopen, merge and hint removal", not any("bytes in the history" in f["what"] for f in rep.failing))
     # shrink the first failing case for the replay
     if rep.failing:
         first = rep.failing[0]
